@@ -585,7 +585,15 @@ func c07cleanup(c *core.Ctx, r *core.Reporter) {
 			// a deferred release after the acquire and before the first evaluation that the acquire dominates
 			released := false
 			for _, d := range defers {
-				if (instrDominates(a, d) || instrDominates(d, a)) && isReleaseDefer(d) {
+				if !isReleaseDefer(d) {
+					continue
+				}
+				if instrDominates(d, a) {
+					// registered before the acquire on every path that takes it (defer ...; Lock())
+					released = true
+					continue
+				}
+				if instrDominates(a, d) {
 					okBeforeAll := true
 					for _, e := range evals {
 						if instrDominates(a, e) && !instrDominates(d, e) {
@@ -597,9 +605,11 @@ func c07cleanup(c *core.Ctx, r *core.Reporter) {
 					}
 				}
 			}
+			// the acquire protects body forms if an evaluation can follow it (the acquire may sit in a branch)
 			protects := false
+			after := core.ReachableBlocks(a.Block(), nil)
 			for _, e := range evals {
-				if instrDominates(a, e) {
+				if instrDominates(a, e) || (after[e.Block()] && e.Block() != a.Block()) {
 					protects = true
 				}
 			}
